@@ -1,82 +1,1373 @@
+// C18 harness: subprocess results are faithful.
+//
+// Two ties to the real code:
+//   - adapter cases: chunk lists are fed straight into the real stream-to-logger adapter (hook
+//     subprocess.VerifNewLogStreamer, build tag verif), one observation per Write and one after the flush;
+//   - real children: this binary re-executes itself as the child (`c18-child <script>`): the script says which bytes
+//     to write with which write(2) calls on which stream, with which pauses, and how to end (exit status 0..255; death
+//     by a signal goes through a `sh` wrapper which kills itself). A few cases use sh/printf/head/tr/dd directly.
+//
+// The oracle (function oracle) states the property directly on what the recording logger and the caller observed; it
+// does not use the Coq model. The same observations are emitted as Coq cases for GU.C18.Model.check_case.
 package main
 
 import (
 	"context"
+	"crypto/sha256"
+	"encoding/json"
 	"errors"
 	"fmt"
 	"os"
+	"os/exec"
+	"path/filepath"
 	"strings"
 	"sync"
+	"syscall"
 	"time"
 
 	"github.com/ARM-software/golang-utils/utils/commonerrors"
 	"github.com/ARM-software/golang-utils/utils/subprocess"
+
+	"verif/harness/internal/h"
 )
+
+const (
+	mStart = "@@C18-START@@"
+	mOK    = "@@C18-OK@@"
+	mFail  = "@@C18-FAIL@@"
+)
+
+// ---------------------------------------------------------------------------------------------------------------------
+// scenarios
+
+// seg is a run-length encoded piece of a byte string: T (text) or B (raw bytes, base64 in JSON), repeated N times.
+type seg struct {
+	T string `json:"t,omitempty"`
+	B []byte `json:"b,omitempty"`
+	N int    `json:"n,omitempty"`
+}
+
+func (s seg) bytes() []byte {
+	unit := []byte(s.T)
+	if len(s.B) > 0 {
+		unit = s.B
+	}
+	n := s.N
+	if n <= 0 {
+		n = 1
+	}
+	out := make([]byte, 0, len(unit)*n)
+	for i := 0; i < n; i++ {
+		out = append(out, unit...)
+	}
+	return out
+}
+
+func segsBytes(ss []seg) []byte {
+	var out []byte
+	for _, s := range ss {
+		out = append(out, s.bytes()...)
+	}
+	return out
+}
+
+func printable(b []byte) bool {
+	for _, c := range b {
+		if c == '\n' || c == '\t' || c == '\r' {
+			continue
+		}
+		if c < 0x20 || c > 0x7e {
+			return false
+		}
+	}
+	return true
+}
+
+// toSegs run-length encodes a byte string (runs of >= 32 equal bytes become one seg).
+func toSegs(b []byte) []seg {
+	var out []seg
+	flushLit := func(lit []byte) {
+		if len(lit) == 0 {
+			return
+		}
+		if printable(lit) {
+			out = append(out, seg{T: string(lit)})
+		} else {
+			out = append(out, seg{B: append([]byte(nil), lit...)})
+		}
+	}
+	start := 0
+	i := 0
+	for i < len(b) {
+		j := i
+		for j < len(b) && b[j] == b[i] {
+			j++
+		}
+		if j-i >= 32 {
+			flushLit(b[start:i])
+			if printable(b[i : i+1]) {
+				out = append(out, seg{T: string(b[i : i+1]), N: j - i})
+			} else {
+				out = append(out, seg{B: []byte{b[i]}, N: j - i})
+			}
+			start = j
+		}
+		i = j
+	}
+	flushLit(b[start:])
+	return out
+}
+
+// op is one write(2) of the child.
+type op struct {
+	S     int    `json:"s"`               // 1 = standard output, 2 = standard error
+	D     []seg  `json:"d,omitempty"`     // the bytes
+	Env   string `json:"env,omitempty"`   // instead of D: the value of this environment variable and a newline
+	Pause int    `json:"pause,omitempty"` // milliseconds to sleep after the write
+}
+
+type scenario struct {
+	Kind string `json:"kind"` // adapter | exec | output
+	// adapter
+	Stderr bool    `json:"stderr,omitempty"`
+	Chunks [][]seg `json:"chunks,omitempty"`
+	// children
+	Ops      []op     `json:"ops,omitempty"`
+	Exit     int      `json:"exit,omitempty"`
+	Signal   int      `json:"signal,omitempty"` // die by this signal after the writes
+	Env      []string `json:"env,omitempty"`    // additional environment ("K=V")
+	Msgs     bool     `json:"msgs,omitempty"`   // custom start/success/failure messages (false: the defaults)
+	Sh       string   `json:"sh,omitempty"`     // `sh -c` script instead of the self child ...
+	ShOut    []seg    `json:"sh_out,omitempty"` // ... and the bytes it writes
+	ShErr    []seg    `json:"sh_err,omitempty"`
+	Cancel   string   `json:"cancel,omitempty"`   // ctx | deadline | method | pre: interrupt the child (it hangs after its writes)
+	NotFound string   `json:"notfound,omitempty"` // run this (non-existent) command instead
+	Func     bool     `json:"func,omitempty"`     // use the package-level functions (Execute / Output) instead of New + (*Subprocess).Execute / OutputWithEnvironment
+}
+
+// childScript is what the self child reads.
+type childScript struct {
+	Ops    []op   `json:"ops"`
+	Exit   int    `json:"exit"`
+	Ready  string `json:"ready,omitempty"` // file created once all writes are done
+	HangMs int    `json:"hang_ms,omitempty"`
+}
+
+func childMain(path string) {
+	bs, err := os.ReadFile(path)
+	if err != nil {
+		os.Exit(250)
+	}
+	var cs childScript
+	if json.Unmarshal(bs, &cs) != nil {
+		os.Exit(251)
+	}
+	for _, o := range cs.Ops {
+		var data []byte
+		if o.Env != "" {
+			data = []byte(os.Getenv(o.Env) + "\n")
+		} else {
+			data = segsBytes(o.D)
+		}
+		fd := 1
+		if o.S == 2 {
+			fd = 2
+		}
+		for len(data) > 0 {
+			n, err := syscall.Write(fd, data)
+			if err == syscall.EINTR || err == syscall.EAGAIN {
+				continue
+			}
+			if err != nil {
+				os.Exit(252)
+			}
+			data = data[n:]
+		}
+		if o.Pause > 0 {
+			time.Sleep(time.Duration(o.Pause) * time.Millisecond)
+		}
+	}
+	if cs.Ready != "" {
+		_ = os.WriteFile(cs.Ready, []byte("1"), 0o600)
+	}
+	if cs.HangMs > 0 {
+		time.Sleep(time.Duration(cs.HangMs) * time.Millisecond)
+		_, _ = syscall.Write(1, []byte("late-line-after-hang\n"))
+	}
+	os.Exit(cs.Exit)
+}
+
+// ---------------------------------------------------------------------------------------------------------------------
+// recording logger
+
+type logEntry struct {
+	Ch    string // "o" = Log, "e" = LogError
+	Msg   string
+	NArgs int
+}
 
 type rec struct {
 	mu   sync.Mutex
-	msgs [][2]string
+	msgs []logEntry
 }
 
-func (r *rec) Close() error                  { return nil }
-func (r *rec) Check() error                  { return nil }
-func (r *rec) SetLogSource(string) error     { return nil }
-func (r *rec) SetLoggerSource(string) error  { return nil }
-func (r *rec) Log(a ...interface{})          { r.add("o", a) }
-func (r *rec) LogError(a ...interface{})     { r.add("e", a) }
-func (r *rec) add(s string, a []interface{}) {
+func (r *rec) Close() error                 { return nil }
+func (r *rec) Check() error                 { return nil }
+func (r *rec) SetLogSource(string) error    { return nil }
+func (r *rec) SetLoggerSource(string) error { return nil }
+func (r *rec) Log(a ...interface{})         { r.add("o", a) }
+func (r *rec) LogError(a ...interface{})    { r.add("e", a) }
+func (r *rec) add(ch string, a []interface{}) {
+	msg := ""
+	if len(a) > 0 {
+		if s, ok := a[0].(string); ok {
+			msg = s
+		} else {
+			msg = fmt.Sprint(a[0])
+		}
+	}
+	r.mu.Lock()
+	r.msgs = append(r.msgs, logEntry{Ch: ch, Msg: msg, NArgs: len(a)})
+	r.mu.Unlock()
+}
+func (r *rec) snapshot() []logEntry {
 	r.mu.Lock()
 	defer r.mu.Unlock()
-	r.msgs = append(r.msgs, [2]string{s, strings.TrimSuffix(fmt.Sprintln(a...), "\n")})
+	return append([]logEntry(nil), r.msgs...)
 }
 
-func show(r *rec) {
-	for _, m := range r.msgs {
-		s := m[1]
-		if len(s) > 60 {
-			s = fmt.Sprintf("%s...(%d)", s[:20], len(s))
+// ---------------------------------------------------------------------------------------------------------------------
+// running
+
+type observation struct {
+	Log     []logEntry
+	ErrKind string // nil | exit:N | signal:N | processdone | cancelled | timeout | notfound | other
+	ErrText string
+	Text    string
+	// adapter
+	PerWrite [][]logEntry
+	Flushed  []logEntry
+	HasFlush bool
+	WriteErr string
+}
+
+func errKind(err error) string {
+	var ee *exec.ExitError
+	switch {
+	case err == nil:
+		return "nil"
+	case commonerrors.Any(err, commonerrors.ErrCancelled):
+		return "cancelled"
+	case commonerrors.Any(err, commonerrors.ErrTimeout):
+		return "timeout"
+	case errors.Is(err, os.ErrProcessDone):
+		return "processdone"
+	case commonerrors.Any(err, commonerrors.ErrNotFound):
+		return "notfound"
+	case errors.As(err, &ee):
+		if ws, ok := ee.Sys().(syscall.WaitStatus); ok {
+			if ws.Signaled() {
+				return fmt.Sprintf("signal:%d", int(ws.Signal()))
+			}
+			if ws.Exited() {
+				return fmt.Sprintf("exit:%d", ws.ExitStatus())
+			}
 		}
-		fmt.Printf("   %s %q\n", m[0], s)
+		return "other"
+	default:
+		return "other"
 	}
 }
 
-func run(name string, ctx context.Context, script string) {
-	r := &rec{}
-	err := subprocess.Execute(ctx, r, "START", "OK", "FAIL", "sh", "-c", script)
-	fmt.Printf("== %s: err=%v (%T) cancelled=%v timeout=%v procdone=%v\n", name, err, err, commonerrors.Any(err, commonerrors.ErrCancelled), commonerrors.Any(err, commonerrors.ErrTimeout), errors.Is(err, os.ErrProcessDone))
-	show(r)
+var (
+	selfPath string
+	scratch  string
+	fileSeq  int
+	fileMu   sync.Mutex
+)
+
+func tmpName(prefix string) string {
+	fileMu.Lock()
+	defer fileMu.Unlock()
+	fileSeq++
+	return filepath.Join(scratch, fmt.Sprintf("%s-%d", prefix, fileSeq))
 }
 
-func main() {
-	ctx := context.Background()
-	run("split", ctx, "printf ab; sleep 0.2; printf 'c\\n'")
-	run("long", ctx, "head -c 100000 /dev/zero | tr '\\0' x; echo")
-	run("crlf", ctx, "printf 'a\\r\\nb\\r\\n'")
-	run("nonl", ctx, "printf 'a\\nb'")
-	run("exit3", ctx, "echo x; echo y >&2; exit 3")
-	run("kill9", ctx, "echo x; kill -9 $$")
-	run("kill15", ctx, "echo x; kill -15 $$")
-	run("kill2", ctx, "echo x; kill -2 $$")
-	run("127", ctx, "nonexistentcmd")
-	c2, cancel := context.WithCancel(ctx)
-	go func() { time.Sleep(300 * time.Millisecond); cancel() }()
-	t := time.Now()
-	run("cancel", c2, "echo x; sleep 5; echo y")
-	fmt.Println(time.Since(t))
-	c3, cancel3 := context.WithTimeout(ctx, 300*time.Millisecond)
-	defer cancel3()
-	t = time.Now()
-	run("timeout", c3, "echo x; exec sleep 5")
-	fmt.Println(time.Since(t))
-	c4, cancel4 := context.WithCancel(ctx)
-	cancel4()
-	run("precancel", c4, "echo x")
+func runAdapter(sc scenario) observation {
+	var o observation
 	r := &rec{}
-	out, err := subprocess.Output(ctx, r, "sh", "-c", "echo a; echo b >&2; printf c")
-	fmt.Printf("output %q %v\n", out, err)
-	show(r)
-	r = &rec{}
-	err = subprocess.Execute(ctx, r, "", "", "", "/nonexistent/bin")
-	fmt.Printf("nobin %v\n", err)
-	show(r)
+	w := subprocess.VerifNewLogStreamer(context.Background(), sc.Stderr, r)
+	seen := 0
+	for _, c := range sc.Chunks {
+		b := segsBytes(c)
+		n, err := w.Write(b)
+		if err != nil || n != len(b) {
+			o.WriteErr = fmt.Sprintf("Write returned (%d, %v) for a chunk of %d bytes", n, err, len(b))
+		}
+		all := r.snapshot()
+		o.PerWrite = append(o.PerWrite, all[seen:])
+		seen = len(all)
+	}
+	if f, ok := w.(interface{ Flush() }); ok {
+		o.HasFlush = true
+		f.Flush()
+		all := r.snapshot()
+		o.Flushed = all[seen:]
+	}
+	o.Log = r.snapshot()
+	return o
+}
+
+func (sc scenario) withMsgs() bool { return sc.Kind == "exec" }
+
+func (sc scenario) command() (cmd string, args []string, ready string) {
+	if sc.NotFound != "" {
+		return sc.NotFound, nil, ""
+	}
+	if sc.Sh != "" {
+		return "sh", []string{"-c", sc.Sh}, ""
+	}
+	cs := childScript{Ops: sc.Ops, Exit: sc.Exit}
+	if sc.Cancel != "" && sc.Cancel != "pre" {
+		cs.Ready = tmpName("ready")
+		cs.HangMs = 20000
+	}
+	script := tmpName("script")
+	bs, _ := json.Marshal(cs)
+	_ = os.WriteFile(script, bs, 0o600)
+	if sc.Signal > 0 {
+		return "sh", []string{"-c", fmt.Sprintf(`ulimit -c 0; "$0" c18-child "$1"; kill -%d $$; sleep 20`, sc.Signal), selfPath, script}, cs.Ready
+	}
+	return selfPath, []string{"c18-child", script}, cs.Ready
+}
+
+func waitFor(path string, max time.Duration) bool {
+	deadline := time.Now().Add(max)
+	for time.Now().Before(deadline) {
+		if _, err := os.Stat(path); err == nil {
+			return true
+		}
+		time.Sleep(2 * time.Millisecond)
+	}
+	return false
+}
+
+// runChild runs one child scenario on the real library. attempt (0..2) only stretches the waits of interrupted runs.
+func runChild(sc scenario, attempt int) observation {
+	var o observation
+	r := &rec{}
+	cmd, args, ready := sc.command()
+	settle := []time.Duration{150 * time.Millisecond, 600 * time.Millisecond, 2 * time.Second}[attempt]
+	ctx := context.Background()
+	var cancel context.CancelFunc = func() {}
+	switch sc.Cancel {
+	case "ctx", "method":
+		ctx, cancel = context.WithCancel(ctx)
+	case "pre":
+		ctx, cancel = context.WithCancel(ctx)
+		cancel()
+	case "deadline":
+		ctx, cancel = context.WithTimeout(ctx, []time.Duration{500 * time.Millisecond, 2 * time.Second, 6 * time.Second}[attempt])
+	}
+	defer cancel()
+	start, okm, failm := "", "", ""
+	if sc.Msgs {
+		start, okm, failm = mStart, mOK, mFail
+	}
+	if sc.Kind == "output" {
+		var text string
+		var err error
+		if sc.Func && len(sc.Env) == 0 {
+			text, err = subprocess.Output(ctx, r, cmd, args...)
+		} else {
+			text, err = subprocess.OutputWithEnvironment(ctx, r, sc.Env, cmd, args...)
+		}
+		o.Text = text
+		o.ErrKind = errKind(err)
+		if err != nil {
+			o.ErrText = err.Error()
+		}
+		o.Log = r.snapshot()
+		return o
+	}
+	interrupt := func(how func()) {
+		if ready != "" && (sc.Cancel == "ctx" || sc.Cancel == "method") {
+			go func() {
+				waitFor(ready, 15*time.Second)
+				time.Sleep(settle) // let the copying goroutines deliver what is in the pipes
+				how()
+			}()
+		}
+	}
+	if sc.Func && sc.Cancel != "method" {
+		var err error
+		interrupt(cancel)
+		if len(sc.Env) == 0 {
+			err = subprocess.Execute(ctx, r, start, okm, failm, cmd, args...)
+		} else {
+			err = subprocess.ExecuteWithEnvironment(ctx, r, sc.Env, start, okm, failm, cmd, args...)
+		}
+		o.ErrKind = errKind(err)
+		if err != nil {
+			o.ErrText = err.Error()
+		}
+		o.Log = r.snapshot()
+		return o
+	}
+	var p *subprocess.Subprocess
+	var err error
+	if len(sc.Env) == 0 {
+		p, err = subprocess.New(ctx, r, start, okm, failm, cmd, args...)
+	} else {
+		p, err = subprocess.NewWithEnvironment(ctx, r, sc.Env, start, okm, failm, cmd, args...)
+	}
+	if err != nil {
+		o.ErrKind = "setup:" + errKind(err)
+		o.ErrText = err.Error()
+		return o
+	}
+	if sc.Cancel == "method" {
+		interrupt(p.Cancel)
+	} else {
+		interrupt(cancel)
+	}
+	err = p.Execute()
+	o.ErrKind = errKind(err)
+	if err != nil {
+		o.ErrText = err.Error()
+	}
+	o.Log = r.snapshot()
+	return o
+}
+
+// ---------------------------------------------------------------------------------------------------------------------
+// the oracle: the property, stated on the observations
+
+func nonEmptyLines(b []byte) []string {
+	var out []string
+	for _, l := range strings.Split(string(b), "\n") {
+		if l != "" {
+			out = append(out, l)
+		}
+	}
+	return out
+}
+
+func (sc scenario) envValue(name string) string {
+	v := ""
+	for _, kv := range sc.Env {
+		if strings.HasPrefix(kv, name+"=") {
+			v = kv[len(name)+1:]
+		}
+	}
+	return v
+}
+
+// expectedBytes: what the child writes on each stream before it ends (or before it hangs, for interrupted runs).
+func (sc scenario) expectedBytes() (out, errb []byte) {
+	if sc.NotFound != "" || sc.Cancel == "pre" {
+		return nil, nil
+	}
+	if sc.Sh != "" {
+		return segsBytes(sc.ShOut), segsBytes(sc.ShErr)
+	}
+	for _, o := range sc.Ops {
+		var d []byte
+		if o.Env != "" {
+			d = []byte(sc.envValue(o.Env) + "\n")
+		} else {
+			d = segsBytes(o.D)
+		}
+		if o.S == 2 {
+			errb = append(errb, d...)
+		} else {
+			out = append(out, d...)
+		}
+	}
+	return
+}
+
+func (sc scenario) expectSuccess() bool {
+	return sc.Exit == 0 && sc.Signal == 0 && sc.Cancel == "" && sc.NotFound == ""
+}
+
+func (sc scenario) cmdPath() string {
+	if sc.NotFound != "" {
+		return sc.NotFound
+	}
+	if sc.Sh != "" || sc.Signal > 0 {
+		return "sh"
+	}
+	return selfPath
+}
+
+// framework message (start / end) as opposed to a line of the child. Custom messages are markers the child never
+// writes; the default messages all quote the command path between backticks, which the child never writes either.
+func (sc scenario) isFramework(e logEntry) bool {
+	if !sc.withMsgs() {
+		return false
+	}
+	if sc.Msgs {
+		return e.Msg == mStart || e.Msg == mOK || e.Msg == mFail
+	}
+	return strings.Contains(e.Msg, "`"+sc.cmdPath()+"`")
+}
+
+type verdict struct{ sig, what string }
+
+func compareLines(stream string, got, want []string) *verdict {
+	if len(got) == len(want) {
+		same := true
+		for i := range got {
+			if got[i] != want[i] {
+				same = false
+				break
+			}
+		}
+		if same {
+			return nil
+		}
+	}
+	for _, g := range got {
+		if g == "" {
+			return &verdict{"empty-line-logged:" + stream, fmt.Sprintf("an empty line was sent to the logger (%s: %d messages for %d non-empty lines)", stream, len(got), len(want))}
+		}
+	}
+	gj, wj := strings.Join(got, ""), strings.Join(want, "")
+	desc := fmt.Sprintf("%s: %d messages logged for %d non-empty lines written", stream, len(got), len(want))
+	for i := 0; i < len(got) && i < len(want); i++ {
+		if got[i] != want[i] {
+			desc += fmt.Sprintf("; first difference at line %d: logged %d bytes %q, written %d bytes %q", i, len(got[i]), clip(got[i]), len(want[i]), clip(want[i]))
+			break
+		}
+	}
+	if gj == wj {
+		return &verdict{"line-split:" + stream, "a line of the child reached the logger in fragments (or lines were merged): " + desc}
+	}
+	if len(gj) < len(wj) {
+		return &verdict{"output-lost:" + stream, "part of the child's output never reached the logger: " + desc}
+	}
+	return &verdict{"output-altered:" + stream, "the logger received something the child did not write / out of order: " + desc}
+}
+
+func clip(s string) string {
+	if len(s) > 40 {
+		return s[:20] + "..." + s[len(s)-10:]
+	}
+	return s
+}
+
+// isInterleaving: text lines are an order-preserving interleaving of a and b.
+func isInterleaving(lines, a, b []string) bool {
+	if len(lines) != len(a)+len(b) {
+		return false
+	}
+	// reachable[j] = after i lines, j of them were taken from a
+	reach := map[int]bool{0: true}
+	for i, l := range lines {
+		next := map[int]bool{}
+		for j := range reach {
+			k := i - j
+			if j < len(a) && a[j] == l {
+				next[j+1] = true
+			}
+			if k < len(b) && b[k] == l {
+				next[j] = true
+			}
+		}
+		if len(next) == 0 {
+			return false
+		}
+		reach = next
+	}
+	return reach[len(a)]
+}
+
+func oracleAdapter(sc scenario, o observation) []verdict {
+	var vs []verdict
+	if o.WriteErr != "" {
+		vs = append(vs, verdict{"adapter-short-write", o.WriteErr})
+	}
+	var stream []byte
+	for _, c := range sc.Chunks {
+		stream = append(stream, segsBytes(c)...)
+	}
+	wantCh := "o"
+	name := "stdout"
+	if sc.Stderr {
+		wantCh, name = "e", "stderr"
+	}
+	var got []string
+	for _, e := range o.Log {
+		if e.Ch != wantCh {
+			vs = append(vs, verdict{"wrong-logger:" + name, fmt.Sprintf("a line of %s was sent to the other logger", name)})
+			break
+		}
+		got = append(got, e.Msg)
+	}
+	if v := compareLines(name, got, nonEmptyLines(stream)); v != nil {
+		v.sig = "adapter-" + v.sig
+		vs = append(vs, *v)
+	}
+	return vs
+}
+
+func oracleChild(sc scenario, o observation) []verdict {
+	var vs []verdict
+	add := func(sig, what string) { vs = append(vs, verdict{sig, what}) }
+	if strings.HasPrefix(o.ErrKind, "setup:") {
+		add("setup-failed", "the subprocess could not be set up: "+o.ErrText)
+		return vs
+	}
+	// --- returned error
+	switch {
+	case sc.expectSuccess() && o.ErrKind != "nil":
+		add("error-on-success", fmt.Sprintf("the child exited with status 0 but an error was returned (%s: %s)", o.ErrKind, o.ErrText))
+	case !sc.expectSuccess() && o.ErrKind == "nil":
+		add("nil-on-failure", fmt.Sprintf("nil returned although the child did not exit with status 0 (exit=%d signal=%d cancel=%q notfound=%q)", sc.Exit, sc.Signal, sc.Cancel, sc.NotFound))
+	case (sc.Cancel == "ctx" || sc.Cancel == "method" || sc.Cancel == "pre") && o.ErrKind != "cancelled":
+		add("cancel-not-context-kind", fmt.Sprintf("the run was cancelled (%s) but the error is not of kind cancelled: %s (%s)", sc.Cancel, o.ErrKind, o.ErrText))
+	case sc.Cancel == "deadline" && o.ErrKind != "timeout":
+		add("cancel-not-context-kind", fmt.Sprintf("the context deadline expired but the error is not of kind timeout: %s (%s)", o.ErrKind, o.ErrText))
+	}
+	// --- messages
+	entries := o.Log
+	if sc.withMsgs() {
+		nfw := 0
+		for _, e := range entries {
+			if sc.isFramework(e) {
+				nfw++
+			}
+		}
+		okFirst := len(entries) > 0 && sc.isFramework(entries[0]) && entries[0].Ch == "o" && (!sc.Msgs || entries[0].Msg == mStart)
+		if !okFirst {
+			add("start-not-first", "the start message is not the first message logged (through Log)")
+		}
+		if len(entries) < 2 || !sc.isFramework(entries[len(entries)-1]) {
+			add("end-not-last", "the last message logged is not a success / failure message")
+		} else {
+			last := entries[len(entries)-1]
+			isOK := last.Ch == "o" && (!sc.Msgs || last.Msg == mOK)
+			isFail := last.Ch == "e" && (!sc.Msgs || last.Msg == mFail)
+			switch {
+			case !isOK && !isFail:
+				add("end-wrong-kind", fmt.Sprintf("the end message is neither the success message on the output logger nor the failure message on the error logger (%s %q)", last.Ch, clip(last.Msg)))
+			case sc.expectSuccess() && !isOK:
+				add("end-wrong-kind", "the child exited with status 0 but the failure message was logged")
+			case !sc.expectSuccess() && !isFail:
+				add("end-wrong-kind", "the child did not exit with status 0 but the success message was logged")
+			}
+		}
+		if nfw != 2 {
+			add("end-count", fmt.Sprintf("%d start/end messages logged, expected the start message and exactly one end message", nfw))
+		}
+		// the child's lines: everything between
+		var mid []logEntry
+		for i, e := range entries {
+			if (i == 0 || i == len(entries)-1) && sc.isFramework(e) {
+				continue
+			}
+			mid = append(mid, e)
+		}
+		entries = mid
+	}
+	var gotOut, gotErr []string
+	for _, e := range entries {
+		if sc.isFramework(e) {
+			continue // already counted
+		}
+		if e.Ch == "o" {
+			gotOut = append(gotOut, e.Msg)
+		} else {
+			gotErr = append(gotErr, e.Msg)
+		}
+	}
+	wantOutB, wantErrB := sc.expectedBytes()
+	wantOut, wantErr := nonEmptyLines(wantOutB), nonEmptyLines(wantErrB)
+	if v := compareLines("stdout", gotOut, wantOut); v != nil {
+		vs = append(vs, *v)
+	}
+	if v := compareLines("stderr", gotErr, wantErr); v != nil {
+		vs = append(vs, *v)
+	}
+	// --- Output()
+	if sc.Kind == "output" {
+		text := o.Text
+		ok := text == "" || strings.HasSuffix(text, "\n")
+		var lines []string
+		if text != "" {
+			lines = strings.Split(strings.TrimSuffix(text, "\n"), "\n")
+		}
+		if !ok || !isInterleaving(lines, wantOut, wantErr) {
+			add("output-text-differs", fmt.Sprintf("Output() returned %d bytes / %d lines which are not the %d+%d non-empty lines the child wrote (each followed by a newline, order kept within each stream)", len(text), len(lines), len(wantOut), len(wantErr)))
+		}
+	}
+	return vs
+}
+
+// ---------------------------------------------------------------------------------------------------------------------
+// Coq terms
+
+func coqBytes(b []byte) string {
+	if len(b) == 0 {
+		return "[]"
+	}
+	var parts []string
+	var lit []string
+	flush := func() {
+		if len(lit) > 0 {
+			parts = append(parts, "["+strings.Join(lit, ";")+"]")
+			lit = nil
+		}
+	}
+	i := 0
+	for i < len(b) {
+		j := i
+		for j < len(b) && b[j] == b[i] {
+			j++
+		}
+		if j-i >= 16 {
+			flush()
+			parts = append(parts, fmt.Sprintf("rep %d %d", b[i], j-i))
+		} else {
+			for k := i; k < j; k++ {
+				lit = append(lit, fmt.Sprint(int(b[k])))
+			}
+		}
+		i = j
+	}
+	flush()
+	if len(parts) == 1 {
+		if strings.HasPrefix(parts[0], "rep") {
+			return "(" + parts[0] + ")"
+		}
+		return parts[0]
+	}
+	return "(" + strings.Join(parts, " ++ ") + ")"
+}
+
+func (sc scenario) coqEntry(e logEntry, framework bool) string {
+	if framework {
+		switch {
+		case e.Ch == "o" && sc.Msgs && e.Msg == mStart:
+			return "EStart"
+		case e.Ch == "o" && sc.Msgs && e.Msg == mOK:
+			return "EEndOk"
+		case e.Ch == "e" && sc.Msgs && e.Msg == mFail && e.NArgs == 2:
+			return "EEndFail"
+		}
+	}
+	st := "SOut"
+	if e.Ch == "e" {
+		st = "SErr"
+	}
+	return "(ELine " + st + " " + coqBytes([]byte(e.Msg)) + ")"
+}
+
+// coqLog: with default messages the first framework message on the output logger is the start message, a later one the
+// success message, one on the error logger (with the error as second argument) the failure message.
+func (sc scenario) coqLog(log []logEntry) string {
+	ts := make([]string, len(log))
+	for i, e := range log {
+		fw := sc.isFramework(e)
+		if fw && !sc.Msgs {
+			switch {
+			case e.Ch == "o" && i == 0:
+				ts[i] = "EStart"
+			case e.Ch == "o":
+				ts[i] = "EEndOk"
+			case e.NArgs == 2:
+				ts[i] = "EEndFail"
+			default:
+				ts[i] = sc.coqEntry(e, false)
+			}
+			continue
+		}
+		ts[i] = sc.coqEntry(e, fw)
+	}
+	return h.List(ts)
+}
+
+func coqErrk(k string) string {
+	var n int
+	switch {
+	case k == "nil":
+		return "ENil"
+	case k == "processdone":
+		return "EProcessDone"
+	case k == "cancelled":
+		return "ECancelled"
+	case k == "timeout":
+		return "ETimeout"
+	case k == "notfound":
+		return "ENotFound"
+	}
+	if _, err := fmt.Sscanf(k, "exit:%d", &n); err == nil {
+		return fmt.Sprintf("(EExit %d)", n)
+	}
+	if _, err := fmt.Sscanf(k, "signal:%d", &n); err == nil {
+		return fmt.Sprintf("(ESignal %d)", n)
+	}
+	return "EOther"
+}
+
+func (sc scenario) coqOutcome() (ctx, outcome string) {
+	ctx = "None"
+	switch sc.Cancel {
+	case "ctx", "method":
+		return "(Some CtxCancelled)", "(Signaled 9)"
+	case "deadline":
+		return "(Some CtxDeadline)", "(Signaled 9)"
+	case "pre":
+		return "(Some CtxCancelled)", "(StartCtx CtxCancelled)"
+	}
+	switch {
+	case sc.NotFound != "" && strings.Contains(sc.NotFound, "/"):
+		outcome = "StartFailed" // no $PATH lookup: exec reports the error of the file system, not exec.ErrNotFound
+	case sc.NotFound != "":
+		outcome = "StartNotFound"
+	case sc.Signal > 0:
+		outcome = fmt.Sprintf("(Signaled %d)", sc.Signal)
+	default:
+		outcome = fmt.Sprintf("(Exited %d)", sc.Exit)
+	}
+	return
+}
+
+func (sc scenario) coqCase(o observation) string {
+	if sc.Kind == "adapter" {
+		pw := make([]string, len(o.PerWrite))
+		for i, w := range o.PerWrite {
+			pw[i] = sc.coqLog(w)
+		}
+		chunks := make([]string, len(sc.Chunks))
+		for i, c := range sc.Chunks {
+			chunks[i] = coqBytes(segsBytes(c))
+		}
+		fl := "None"
+		if o.HasFlush {
+			fl = "(Some " + sc.coqLog(o.Flushed) + ")"
+		}
+		return fmt.Sprintf("CAdapter %s %s %s %s", h.Bool(sc.Stderr), h.List(chunks), h.List(pw), fl)
+	}
+	ob, eb := sc.expectedBytes()
+	ctx, outcome := sc.coqOutcome()
+	if sc.Kind == "output" {
+		return fmt.Sprintf("COutput %s %s %s %s %s %s", outcome, coqBytes(ob), coqBytes(eb), sc.coqLog(o.Log), coqBytes([]byte(o.Text)), coqErrk(o.ErrKind))
+	}
+	return fmt.Sprintf("CExec true %s %s %s %s %s %s", ctx, outcome, coqBytes(ob), coqBytes(eb), sc.coqLog(o.Log), coqErrk(o.ErrKind))
+}
+
+// ---------------------------------------------------------------------------------------------------------------------
+// generators
+
+var alphabet = []byte("abcdefghijklmnopqrstuvwxyzABCDEFGHIJKLMNOPQRSTUVWXYZ0123456789 \t\r.,;:-_=+/\\\"'()[]{}<>!?#$%^&*|~")
+
+func genLine(r *h.Run, n int) []byte {
+	b := make([]byte, n)
+	switch r.Rng.Intn(4) {
+	case 0: // a few long runs (compact in the case files)
+		i := 0
+		for i < n {
+			c := alphabet[r.Rng.Intn(len(alphabet))]
+			l := 1 + r.Rng.Intn(n)
+			for ; l > 0 && i < n; l-- {
+				b[i] = c
+				i++
+			}
+		}
+	case 1: // arbitrary bytes except the separator, '@' and '`'
+		for i := range b {
+			c := byte(r.Rng.Intn(256))
+			for c == '\n' || c == '@' || c == '`' {
+				c = byte(r.Rng.Intn(256))
+			}
+			b[i] = c
+		}
+	default:
+		for i := range b {
+			b[i] = alphabet[r.Rng.Intn(len(alphabet))]
+		}
+	}
+	return b
+}
+
+var lineLens = []int{0, 0, 1, 1, 2, 3, 7, 20, 79, 80, 200}
+var bigLens = []int{4095, 4096, 4097, 8191, 8192, 8193, 32767, 32768, 32769, 65535, 65536, 65537, 100000}
+
+// genText: a stream of lines; big = allow long lines / volume.
+func genText(r *h.Run, maxBytes int, big bool) []byte {
+	var out []byte
+	nl := r.Rng.Intn(12)
+	if r.Rng.Intn(6) == 0 {
+		nl = 0
+	}
+	for i := 0; i < nl && len(out) < maxBytes; i++ {
+		n := lineLens[r.Rng.Intn(len(lineLens))]
+		if big && r.Rng.Intn(4) == 0 {
+			n = bigLens[r.Rng.Intn(len(bigLens))]
+			if r.Rng.Intn(2) == 0 {
+				n = 1 + r.Rng.Intn(100000)
+			}
+		}
+		if len(out)+n > maxBytes {
+			n = maxBytes - len(out)
+		}
+		out = append(out, genLine(r, n)...)
+		out = append(out, '\n')
+	}
+	switch r.Rng.Intn(3) {
+	case 0: // unterminated last line
+		if len(out) > 0 && out[len(out)-1] == '\n' {
+			out = out[:len(out)-1]
+		}
+	case 1:
+		out = append(out, genLine(r, 1+r.Rng.Intn(5))...)
+	}
+	return out
+}
+
+// cut splits b at k random offsets (biased towards positions next to a separator); withEmpty adds empty chunks.
+func cut(r *h.Run, b []byte, k int, withEmpty bool) [][]byte {
+	pos := map[int]bool{}
+	var nls []int
+	for i, c := range b {
+		if c == '\n' {
+			nls = append(nls, i)
+		}
+	}
+	for i := 0; i < k && len(b) > 0; i++ {
+		p := r.Rng.Intn(len(b) + 1)
+		if len(nls) > 0 && r.Rng.Intn(3) == 0 {
+			p = nls[r.Rng.Intn(len(nls))] + r.Rng.Intn(2)
+		}
+		pos[p] = true
+	}
+	var out [][]byte
+	prev := 0
+	for p := 0; p <= len(b); p++ {
+		if pos[p] && (p > prev || withEmpty) {
+			out = append(out, b[prev:p])
+			prev = p
+			if withEmpty && r.Rng.Intn(4) == 0 {
+				out = append(out, nil)
+			}
+		}
+	}
+	if prev < len(b) || len(out) == 0 {
+		out = append(out, b[prev:])
+	}
+	return out
+}
+
+func fixed(b []byte, size int) [][]byte {
+	var out [][]byte
+	for len(b) > size {
+		out = append(out, b[:size])
+		b = b[size:]
+	}
+	return append(out, b)
+}
+
+func adapterSc(stderr bool, chunks [][]byte) scenario {
+	sc := scenario{Kind: "adapter", Stderr: stderr}
+	for _, c := range chunks {
+		sc.Chunks = append(sc.Chunks, toSegs(c))
+	}
+	return sc
+}
+
+func strs(ss ...string) [][]byte {
+	out := make([][]byte, len(ss))
+	for i, s := range ss {
+		out[i] = []byte(s)
+	}
+	return out
+}
+
+func rep(c byte, n int) []byte { return []byte(strings.Repeat(string(c), n)) }
+
+func deterministicAdapter() []scenario {
+	var scs []scenario
+	scs = append(scs, adapterSc(false, strs("ab", "c\n"))) // the witness of DESIGN.md (D16)
+	scs = append(scs, adapterSc(true, strs("ab", "c\n")))
+	for _, cs := range [][][]byte{
+		nil, strs(""), strs("\n"), strs("\n\n\n"), strs("a"), strs("a", "", "\n"), strs("a\r", "\nb\r\n"), strs("", "", "x"),
+		strs("a\n", "\n", "b"), strs("a", "\n", "\n", "b", "\n"), strs("line1\nline2\n"), strs("line1\nli", "ne2\nline3"), strs("x\n", "y\n", "z\n"),
+		strs("\n", "a"), strs("a\n\n", "\nb"), strs("é\n", "\xff\x00\x7f\n"), strs("\xc3", "\xa9\n"),
+	} {
+		scs = append(scs, adapterSc(false, cs), adapterSc(true, cs))
+	}
+	// every single and double cut of two small texts; one byte per chunk
+	for _, t := range []string{"a\n\nbc\nd", "ab\ncd\n"} {
+		b := []byte(t)
+		for i := 0; i <= len(b); i++ {
+			scs = append(scs, adapterSc(i%2 == 1, [][]byte{b[:i], b[i:]}))
+			for j := i; j <= len(b); j++ {
+				scs = append(scs, adapterSc(j%2 == 1, [][]byte{b[:i], b[i:j], b[j:]}))
+			}
+		}
+		scs = append(scs, adapterSc(false, fixed(b, 1)))
+	}
+	// long lines cut like the reads of a pipe
+	long := append(append(rep('x', 100000), '\n'), rep('y', 70000)...)
+	for _, size := range []int{8192, 32768, 65536, 99999} {
+		scs = append(scs, adapterSc(false, fixed(long, size)), adapterSc(true, fixed(append(long, '\n'), size)))
+	}
+	return scs
+}
+
+func childSc(kind string, msgs bool, exit, signal int, ops ...op) scenario {
+	return scenario{Kind: kind, Msgs: msgs, Exit: exit, Signal: signal, Ops: ops}
+}
+
+func w(s int, data string, pause int) op  { return op{S: s, D: toSegs([]byte(data)), Pause: pause} }
+func wb(s int, data []byte, pause int) op { return op{S: s, D: toSegs(data), Pause: pause} }
+
+func deterministicChildren(r *h.Run) []scenario {
+	var scs []scenario
+	// D16 on a real child: a line written in two steps; a line longer than one read of the pipe
+	scs = append(scs, childSc("exec", true, 0, 0, w(1, "ab", 40), w(1, "c\n", 0)))
+	scs = append(scs, childSc("exec", true, 0, 0, w(2, "ab", 40), w(2, "c\n", 0)))
+	scs = append(scs, childSc("exec", true, 0, 0, wb(1, append(rep('x', 100000), '\n'), 0)))
+	scs = append(scs, childSc("output", false, 0, 0, w(1, "ab", 40), w(1, "c\n", 0), w(2, "de", 40), w(2, "f\n", 0)))
+	scs = append(scs, childSc("output", false, 0, 0, wb(2, append(rep('y', 100000), '\n'), 0)))
+	// every exit status, with a line on each stream; the last line is unterminated for odd statuses
+	for code := 0; code <= 255; code++ {
+		tail := "\n"
+		if code%2 == 1 {
+			tail = ""
+		}
+		kind := "exec"
+		if code%8 == 5 {
+			kind = "output"
+		}
+		sc := childSc(kind, code%3 != 0, code, 0, w(1, fmt.Sprintf("out of %d\nlast out%s", code, tail), 0), w(2, fmt.Sprintf("\nerr of %d\n\nlast err%s", code, tail), 0))
+		sc.Func = code%5 < 2
+		scs = append(scs, sc)
+	}
+	// death by signal (unterminated last lines must still be delivered)
+	for _, sig := range []int{1, 2, 3, 6, 9, 10, 13, 14, 15} {
+		scs = append(scs, childSc("exec", true, 0, sig, w(1, "before signal\nout tail", 0), w(2, "err tail", 0)))
+		scs = append(scs, childSc("output", false, 0, sig, w(2, "e1\n", 0), w(1, "o1\no2", 0)))
+	}
+	// nothing at all; only separators; default messages
+	scs = append(scs, childSc("exec", true, 0, 0), childSc("exec", false, 0, 0), childSc("exec", false, 7, 0), childSc("output", false, 0, 0))
+	scs = append(scs, childSc("exec", false, 0, 0, w(1, "\n\n\n", 0), w(2, "\n", 0)), childSc("exec", false, 1, 0, w(1, "x\n", 0), w(2, "y", 0)))
+	// boundary line lengths around the buffer sizes of io.Copy and of the pipe, written in one piece
+	for i, n := range []int{32767, 32768, 32769, 65535, 65536, 65537} {
+		s := 1 + i%2
+		scs = append(scs, childSc("exec", true, i%2, 0, wb(s, append(rep('a'+byte(i), n), '\n'), 0), wb(s, rep('z', n), 0)))
+	}
+	// volume: 10^6 bytes per stream, both streams at once (lines of 99 bytes + separator); and without separators at all
+	var vol []byte
+	for i := 0; i < 10000; i++ {
+		vol = append(vol, rep('0'+byte(i%10), 99)...)
+		vol = append(vol, '\n')
+	}
+	big := childSc("exec", true, 3, 0)
+	for i := 0; i < 10; i++ {
+		big.Ops = append(big.Ops, wb(1, vol[i*100000:(i+1)*100000], 0), wb(2, vol[i*100000+50:(i+1)*100000+50-100*(i/9)], 0))
+	}
+	scs = append(scs, big)
+	scs = append(scs, childSc("output", false, 0, 0, wb(1, vol[:500000], 0), wb(2, vol[:300000], 0)))
+	scs = append(scs, childSc("exec", true, 0, 0, wb(1, rep('q', 1000000), 0)))
+	// lines with leading / trailing blanks, tabs, carriage returns: unmodified
+	scs = append(scs, childSc("exec", true, 0, 0, w(1, "  padded \t\r\n\t\n \n", 0), w(2, " \r\n\r\n x ", 0)), childSc("output", false, 4, 0, w(1, " a \n  \n", 0), w(2, "\tb\t", 0)))
+	// environment
+	env := scenario{Kind: "exec", Msgs: true, Env: []string{"C18_VAR=value with spaces", "C18_OTHER=x=y"}, Ops: []op{{S: 1, Env: "C18_VAR"}, {S: 2, Env: "C18_OTHER"}, {S: 1, Env: "C18_UNSET"}}}
+	scs = append(scs, env)
+	env.Kind = "output"
+	scs = append(scs, env)
+	env.Func = true
+	scs = append(scs, env)
+	env.Kind = "exec"
+	scs = append(scs, env)
+	// plain shell children
+	scs = append(scs,
+		scenario{Kind: "exec", Msgs: true, Sh: `printf ab; sleep 0.05; printf 'c\n'`, ShOut: toSegs([]byte("abc\n"))},
+		scenario{Kind: "exec", Msgs: true, Sh: `head -c 100000 /dev/zero | tr '\0' x; echo`, ShOut: toSegs(append(rep('x', 100000), '\n'))},
+		scenario{Kind: "exec", Msgs: true, Exit: 3, Sh: `echo out; echo err >&2; exit 3`, ShOut: toSegs([]byte("out\n")), ShErr: toSegs([]byte("err\n"))},
+		scenario{Kind: "output", Sh: `dd if=/dev/zero bs=1000 count=100 2>/dev/null | tr '\0' y >&2; printf 'a\n\nb'`, ShOut: toSegs([]byte("a\n\nb")), ShErr: toSegs(rep('y', 100000))},
+		scenario{Kind: "exec", Msgs: false, Exit: 127, Sh: `c18-no-such-command-in-sh 2>/dev/null`},
+	)
+	// commands which cannot be started
+	scs = append(scs, scenario{Kind: "exec", Msgs: true, NotFound: "/nonexistent/c18-binary"}, scenario{Kind: "exec", Msgs: false, NotFound: "c18-no-such-command-xyz"},
+		scenario{Kind: "output", NotFound: "c18-no-such-command-xyz"})
+	// interrupted runs: the child has written its lines and hangs
+	for i, how := range []string{"ctx", "deadline", "method", "pre", "ctx", "method"} {
+		sc := childSc("exec", i != 4, 0, 0, w(1, "a\nb\n", 0), w(2, "e\n", 0))
+		if i >= 3 {
+			sc.Ops = []op{w(1, "a\nunterminated", 0), w(2, "e-unterminated", 0)}
+		}
+		sc.Cancel = how
+		scs = append(scs, sc)
+		if i < 4 && how != "method" {
+			sc.Func = true
+			scs = append(scs, sc)
+		}
+	}
+	return scs
+}
+
+func randomAdapter(r *h.Run) scenario {
+	big := r.Rng.Intn(8) == 0
+	max := 2000
+	if big {
+		max = 300000
+	}
+	text := genText(r, max, big)
+	var chunks [][]byte
+	switch r.Rng.Intn(5) {
+	case 0:
+		chunks = [][]byte{text}
+	case 1:
+		chunks = fixed(text, []int{1, 2, 3, 7, 64, 4096, 8192, 32768}[r.Rng.Intn(8)])
+		if len(chunks) > 600 {
+			chunks = cut(r, text, 40, false)
+		}
+	default:
+		chunks = cut(r, text, 1+r.Rng.Intn(12), true)
+	}
+	return adapterSc(r.Rng.Intn(2) == 0, chunks)
+}
+
+func randomChild(r *h.Run) scenario {
+	sc := scenario{Kind: "exec", Msgs: r.Rng.Intn(5) != 0}
+	if r.Rng.Intn(4) == 0 {
+		sc.Kind = "output"
+	}
+	big := r.Rng.Intn(6) == 0
+	max := 3000
+	if big {
+		max = 250000
+	}
+	streams := [][]byte{genText(r, max, big), genText(r, max, big)}
+	if r.Rng.Intn(5) == 0 {
+		streams[r.Rng.Intn(2)] = nil
+	}
+	var parts [2][][]byte
+	for s := 0; s < 2; s++ {
+		parts[s] = cut(r, streams[s], r.Rng.Intn(6), false)
+	}
+	// interleave the writes of the two streams, order kept within each
+	pauses := r.Rng.Intn(2) == 0
+	budget := 60 // ms of pauses per scenario
+	for len(parts[0]) > 0 || len(parts[1]) > 0 {
+		s := r.Rng.Intn(2)
+		if len(parts[s]) == 0 {
+			s = 1 - s
+		}
+		o := op{S: s + 1, D: toSegs(parts[s][0])}
+		parts[s] = parts[s][1:]
+		if len(segsBytes(o.D)) == 0 {
+			continue
+		}
+		if pauses && budget > 0 && r.Rng.Intn(2) == 0 {
+			o.Pause = 1 + r.Rng.Intn(15)
+			budget -= o.Pause
+		}
+		sc.Ops = append(sc.Ops, o)
+	}
+	if r.Rng.Intn(4) == 0 {
+		sc.Env = []string{fmt.Sprintf("C18_VAR=v%d", r.Rng.Intn(1000))}
+		sc.Ops = append(sc.Ops, op{S: 1 + r.Rng.Intn(2), Env: "C18_VAR"})
+	}
+	sc.Func = r.Rng.Intn(2) == 0
+	switch x := r.Rng.Intn(10); {
+	case x < 4:
+	case x < 9:
+		sc.Exit = 1 + r.Rng.Intn(255)
+	default:
+		sc.Signal = []int{1, 2, 9, 15, 10, 14}[r.Rng.Intn(6)]
+	}
+	return sc
+}
+
+// ---------------------------------------------------------------------------------------------------------------------
+
+func key(sc scenario) string {
+	bs, _ := json.Marshal(sc)
+	return fmt.Sprintf("%x", sha256.Sum256(bs))[:16]
+}
+
+func execute(sc scenario, attempt int) (observation, []verdict) {
+	if sc.Kind == "adapter" {
+		o := runAdapter(sc)
+		return o, oracleAdapter(sc, o)
+	}
+	o := runChild(sc, attempt)
+	vs := oracleChild(sc, o)
+	return o, vs
+}
+
+type result struct {
+	o  observation
+	vs []verdict
+}
+
+func timingDependent(sc scenario) bool { return sc.Cancel != "" && sc.Cancel != "pre" }
+
+func main() {
+	if len(os.Args) >= 3 && os.Args[1] == "c18-child" {
+		childMain(os.Args[2])
+		return
+	}
+	r := h.Init("C18")
+	r.Imports = []string{"GU.C18.Model"}
+	var err error
+	selfPath, err = os.Executable()
+	if err != nil {
+		fmt.Fprintln(os.Stderr, "cannot find own executable:", err)
+		os.Exit(2)
+	}
+	scratch, err = os.MkdirTemp("", "verif-c18-*")
+	if err != nil {
+		fmt.Fprintln(os.Stderr, err)
+		os.Exit(2)
+	}
+	defer os.RemoveAll(scratch)
+	r.Rule("a scenario counts as distinct and non-trivial when its content (chunk list, or the child's write script with streams, cuts, pauses, ending, environment, entry point) differs from every other scenario of the run and it makes the child / the chunks carry at least one byte or end other than by exit status 0")
+
+	var scs []scenario
+	var one scenario
+	if _, ok := r.ReplayObject(&one); ok {
+		scs = []scenario{one}
+	} else {
+		scs = append(scs, deterministicAdapter()...)
+		scs = append(scs, deterministicChildren(r)...)
+		for i := 0; i < r.N(300, 3000); i++ {
+			scs = append(scs, randomAdapter(r))
+		}
+		for i := 0; i < r.N(160, 1500); i++ {
+			scs = append(scs, randomChild(r))
+		}
+	}
+
+	// run: adapter cases inline, children on a small pool (results are kept by index: the run is deterministic in -seed)
+	results := make([]result, len(scs))
+	var wg sync.WaitGroup
+	sem := make(chan struct{}, 6)
+	for i := range scs {
+		if scs[i].Kind == "adapter" {
+			o, vs := execute(scs[i], 0)
+			results[i] = result{o, vs}
+			continue
+		}
+		wg.Add(1)
+		sem <- struct{}{}
+		go func(i int) {
+			defer wg.Done()
+			defer func() { <-sem }()
+			o, vs := execute(scs[i], 0)
+			results[i] = result{o, vs}
+		}(i)
+	}
+	wg.Wait()
+	// a failure of a run which depends on timing (interrupting a child) is confirmed in isolation, with longer waits
+	for i := range scs {
+		if len(results[i].vs) > 0 && timingDependent(scs[i]) {
+			for attempt := 1; attempt <= 2 && len(results[i].vs) > 0; attempt++ {
+				r.Count("timing-dependent failure re-run")
+				o, vs := execute(scs[i], attempt)
+				results[i] = result{o, vs}
+			}
+		}
+	}
+
+	emittedChars := 0
+	for i, sc := range scs {
+		res := results[i]
+		r.Eval()
+		r.Count("kind:" + sc.Kind)
+		nbytes := 0
+		if sc.Kind == "adapter" {
+			for _, c := range sc.Chunks {
+				nbytes += len(segsBytes(c))
+			}
+			r.Count(fmt.Sprintf("adapter chunks:%s", bucket(len(sc.Chunks))))
+		} else {
+			ob, eb := sc.expectedBytes()
+			nbytes = len(ob) + len(eb)
+			switch {
+			case sc.Cancel != "":
+				r.Count("ending:interrupted-" + sc.Cancel)
+			case sc.NotFound != "":
+				r.Count("ending:cannot-start")
+			case sc.Signal > 0:
+				r.Count(fmt.Sprintf("ending:signal-%d", sc.Signal))
+			case sc.Exit == 0:
+				r.Count("ending:exit-0")
+			default:
+				r.Count("ending:exit-nonzero")
+			}
+			if len(sc.Env) > 0 {
+				r.Count("with extra environment")
+			}
+			if sc.Func {
+				r.Count("entry:package-level function")
+			} else {
+				r.Count("entry:New + method / ...WithEnvironment")
+			}
+			if !sc.Msgs && sc.Kind == "exec" {
+				r.Count("default messages")
+			}
+			for _, o := range sc.Ops {
+				if o.Pause > 0 {
+					r.Count("writes followed by a pause")
+				}
+			}
+			r.CountN("child writes", len(sc.Ops))
+			if len(ob) > 0 && len(eb) > 0 {
+				r.Count("both streams")
+			}
+			r.Count("result:" + res.o.ErrKind)
+		}
+		r.Count("bytes:" + bucket(nbytes))
+		if nbytes > 0 || !sc.expectSuccess() {
+			r.Distinct(key(sc))
+		}
+		if i%97 == 0 {
+			r.Sample(map[string]any{"scenario": sc, "error": res.o.ErrKind, "messages": len(res.o.Log)})
+		}
+		for _, v := range res.vs {
+			r.Fail(v.sig, v.what, sc)
+		}
+		// correspondence case (bounded size: the model is evaluated inside Coq and a long literal list overflows coqc's
+		// stack; long runs of one byte are written `rep c n` and stay small)
+		if strings.HasPrefix(res.o.ErrKind, "setup:") {
+			continue
+		}
+		term := ""
+		if nbytes <= 400000 {
+			term = sc.coqCase(res.o)
+		}
+		if term != "" && len(term) <= 60000 && emittedChars+len(term) <= 5000000 {
+			emittedChars += len(term)
+			r.Case(term, map[string]any{"scenario": sc, "error": res.o.ErrKind})
+		} else {
+			r.Count("too large for a Coq case (oracle only)")
+		}
+	}
+	r.Note("children are this binary re-executed with a write script (one write(2) per op, optional pauses); death by signal through `sh -c '...; kill -N $$'`; interrupted children have written everything and hang before the run is cancelled (re-run up to 3 times with longer waits before a failure is reported)")
+	r.Finish()
+}
+
+func bucket(n int) string {
+	switch {
+	case n == 0:
+		return "0"
+	case n <= 10:
+		return "1-10"
+	case n <= 100:
+		return "11-100"
+	case n <= 1000:
+		return "101-1e3"
+	case n <= 10000:
+		return "1e3-1e4"
+	case n <= 100000:
+		return "1e4-1e5"
+	default:
+		return ">1e5"
+	}
 }
